@@ -11,14 +11,16 @@ def check(run):
         raise core.Inconclusive("driver did not consume every case")
     run.evaluations = 4 * n
     run.traces = n
-    run.nontrivial = s["picked"]
+    run.nontrivial = s["picked"] + s["token_list_picked"]
     run.exhaustive = True
     run.rule = ("TLC enumerates every Accept header of <= 2 (thorough: 3) ranges over {*/*, text/*, text/html, text/plain, application/json} x q-values x "
                 "parameter sets and every offer list of <= 2 (3) offers (MIME types with and without parameters, file extensions) and computes the offer the "
                 "RFC 9110 preference order selects (plus ZeroNeverSelects / AbsentSelectsFirst on the function); each case is serialised in 4 spellings "
                 "(OWS, q=0.5/0.500, quoted parameter values, duplicated range) and given to Accepts (twice, pooled context) and Format. "
+                "Token lists: every header of <= 3 (4) ranges over three tokens and * x q-values and every offer list, decided by the same order, "
+                "given to AcceptsCharsets, AcceptsEncodings and AcceptsLanguages with real token names. "
                 "Non-trivial = cases in which an offer is selected.")
     run.extra["driver_summary"] = s
     run.extra["violations_by_check"] = dict(collections.Counter(v["check"] for v in run.violations))
     run.assumptions = ["tokens are lower-case (the statement does not promise case-insensitive matching)",
-                       "AcceptsCharsets/Encodings/Languages share the same selection code path and are not enumerated separately yet"]
+                       "token lists: the three tokens are no prefixes of one another (the code's prefix rule for tokens, e.g. language ranges, is outside the statement)"]
